@@ -117,3 +117,27 @@ func vh_C14_aud() {
 		verifReach("rejected")
 	}
 }
+
+// what the library verifier is told to check: issuer verification is skipped only when the
+// operator said so (whatever the discovery settings), expiry is never skipped, the client-id
+// check is delegated to the proxy's own audience rule (decided above)
+// verif: unwind=4 strlen=8
+func vh_C04_verifier_config() {
+	o := ProviderVerifierOptions{
+		ClientID:               ndString("client-id"),
+		IssuerURL:              "https://issuer.example",
+		SkipDiscovery:          ndBool("skip-discovery"),
+		SkipIssuerVerification: ndBool("insecure-skip-issuer-verification"),
+	}
+	if ndBool("jwks-url") {
+		o.JWKsURL = "https://issuer.example/keys"
+	}
+	if ndBool("extra-audience") {
+		o.ExtraAudiences = []string{"other"}
+	}
+	c := o.toOIDCConfig()
+	verifAssert("C04.config.issuer-check-skipped-only-on-request", c.SkipIssuerCheck == o.SkipIssuerVerification)
+	verifAssert("C04.config.expiry-always-checked", !c.SkipExpiryCheck && !c.InsecureSkipSignatureCheck)
+	verifAssert("C04.config.client-id-passed", c.ClientID == o.ClientID && c.SkipClientIDCheck)
+	verifReach("end")
+}
